@@ -734,7 +734,7 @@ func checkOmit() (n int64, msgs []string) {
 // ---- wide structs ----
 
 func checkWide() (n int64, msgs []string) {
-	for _, nf := range []int{63, 64, 65, 66, 129, 130} {
+	for _, nf := range []int{63, 64, 65, 66, 97, 129, 130, 200} {
 		var fs []reflect.StructField
 		for i := 0; i < nf; i++ {
 			fs = append(fs, reflect.StructField{Name: fmt.Sprintf("F%d", i), Type: tInt})
@@ -752,6 +752,45 @@ func checkWide() (n int64, msgs []string) {
 			p = reflect.New(t)
 			if err := jsonv2.Unmarshal([]byte(doc), p.Interface()); err == nil {
 				msgs = append(msgs, fmt.Sprintf("%d-field struct: duplicate of member F%d accepted", nf, i))
+			}
+		}
+		// every ordered pair of distinct members: both accepted, each stored in its own field
+		for i := 0; i < nf; i++ {
+			for j := 0; j < nf; j++ {
+				if i == j {
+					continue
+				}
+				n++
+				p := reflect.New(t)
+				if err := jsonv2.Unmarshal([]byte(fmt.Sprintf(`{"F%d":5,"F%d":6}`, i, j)), p.Interface()); err != nil || p.Elem().Field(i).Int() != 5 || p.Elem().Field(j).Int() != 6 {
+					msgs = append(msgs, fmt.Sprintf("%d-field struct: members F%d and F%d in one object: err=%v, fields hold %d and %d (want 5 and 6)", nf, i, j, err, p.Elem().Field(i).Int(), p.Elem().Field(j).Int()))
+					if len(msgs) > 40 {
+						return n, msgs
+					}
+				}
+			}
+		}
+		// all members at once, in declaration order, in reverse and rotated by 64
+		for _, order := range []func(k int) int{func(k int) int { return k }, func(k int) int { return nf - 1 - k }, func(k int) int { return (k + 64) % nf }} {
+			n++
+			var sb strings.Builder
+			sb.WriteByte('{')
+			for k := 0; k < nf; k++ {
+				if k > 0 {
+					sb.WriteByte(',')
+				}
+				fmt.Fprintf(&sb, `"F%d":%d`, order(k), order(k)+1)
+			}
+			sb.WriteByte('}')
+			p := reflect.New(t)
+			err := jsonv2.Unmarshal([]byte(sb.String()), p.Interface())
+			for k := 0; err == nil && k < nf; k++ {
+				if p.Elem().Field(k).Int() != int64(k+1) {
+					err = fmt.Errorf("field F%d holds %d", k, p.Elem().Field(k).Int())
+				}
+			}
+			if err != nil {
+				msgs = append(msgs, fmt.Sprintf("%d-field struct: an object naming every member once: %v", nf, err))
 			}
 		}
 		// all fields in declaration order on marshal
@@ -877,6 +916,8 @@ func Run(r *evid.Run) {
 	for _, m := range msgs {
 		r.Violation("c15|wide|"+m, m, Case{Part: "wide", Name: m}, nil)
 	}
-	r.Bound("omit/string: 23 value kinds x 5 tags x {default, OmitZeroStructFields}; wide structs with 63, 64, 65, 66, 129, 130 fields")
+	fallbackFamily(r)
+	tagStayFamily(r)
+	r.Bound("omit/string: 23 value kinds x 5 tags x {default, OmitZeroStructFields}; wide structs with 63, 64, 65, 66, 97, 129, 130, 200 fields (every member alone, every ordered pair, all members in three orders, a duplicate of every member)")
 	omitStreaming(r)
 }
